@@ -899,7 +899,7 @@ struct E2
         long nsched = 0;
         while (!stack.empty())
         {
-            if (time_up())
+            if (time_up() || viols.size() >= 12)
             {
                 capped = true;
                 return;
